@@ -16,9 +16,12 @@ ID = "C07"
 LEVEL = "proof"
 F = "moclo/moclo/core/_assembly.py"
 R = "moclo/moclo/record.py"
-FILES = [F, "moclo/moclo/core/_utils.py", R]
+FILES = [F, "moclo/moclo/core/_utils.py", R, "moclo/moclo/core/modules.py", "moclo/moclo/core/vectors.py"]
 FUNCTIONS = [(F, "AssemblyManager.assemble"), (R, "CircularRecord.__getitem__"), (R, "CircularRecord.__init__"),
-             ("moclo/moclo/core/_utils.py", "add_as_source")]
+             ("moclo/moclo/core/_utils.py", "add_as_source"),
+             # the fragment extractors run on the inputs: frame clause `wrapped-record-left-untouched`
+             ("moclo/moclo/core/modules.py", "AbstractModule.target_sequence"),
+             ("moclo/moclo/core/vectors.py", "AbstractVector.target_sequence")]
 ASSUMES = ["D-COPY", "D-REC-SLICE", "D-REC-ADD",
            "heap abstraction: only the citation qualifiers and the reference list of the inputs are modelled as mutable "
            "cells; that no other statement of the package mutates an input is the census obligation C07.F1",
@@ -211,6 +214,33 @@ def bounded(ctx):
                                  case=dict(scenario=name, citations=with_cit)))
             if len(samples) < 3:
                 samples.append(dict(scenario=name, citations=with_cit, outcome=results[0][0]))
+        # every rotation of the vector plasmid and of the first module plasmid (the origin on a cut, inside a site ...):
+        # complete assembly and a missing module, inputs compared before/after; fresh inputs for every rotation
+        for which in ("vector", "module"):
+            base_v, _bv, base_m, _s, _d, _i = build_inputs(ctx, ns, random.Random(ctx.seed + 7), with_cit)
+            nrot = len((base_v if which == "vector" else base_m[0]).record.seq)
+            step = 1 if ctx.tier != "quick" else 1
+            for k in range(0, nrot, step):
+                v2, _bv, m2, _s, _d, _i = build_inputs(ctx, ns, random.Random(ctx.seed + 7), with_cit)
+                if which == "vector":
+                    v2 = type(v2)(v2.record >> k)
+                else:
+                    m2 = [type(m2[0])(m2[0].record >> k)] + m2[1:]
+                for sc, ms in (("complete", m2), ("missing", m2[:1] + m2[2:])):
+                    inputs = [v2] + ms
+                    before = [deep_snapshot(x.record) for x in inputs]
+                    evals += 1
+                    got, prod, w = ba.run_assembly(v2, ms)
+                    after = [deep_snapshot(x.record) for x in inputs]
+                    distinct.add(("rot", which, k, sc, with_cit))
+                    for x, b, a in zip(inputs, before, after):
+                        if a != b:
+                            diff = [kk for kk in b if a.get(kk) != b[kk]]
+                            viol.append(dict(name="rotation_%s_%s_%s" % (which, sc, "cit" if with_cit else "plain"),
+                                             what="%s plasmid rotated by %d, scenario %s (%s citations), ending with %r: input %s changed in %s" % (
+                                                 which, k, sc, "with" if with_cit else "without", got[:2], x.record.id, diff),
+                                             case=dict(rotated=which, k=k, scenario=sc, citations=with_cit)))
+                            break
         # failure injected into the j-th fragment extraction
         for j in range(3):
             evals += 1
@@ -250,7 +280,7 @@ def bounded(ctx):
     for v in viol:
         uniq.setdefault(v["name"], v)
     return dict(evaluations=evals, distinct_nontrivial=len(distinct),
-                rule="BsaI vector + chain of 3 annotated modules, with and without literature citations: 10 scenarios (complete, "
+                rule="every rotation of the vector plasmid and of the first module plasmid x {complete, missing module}; BsaI vector + chain of 3 annotated modules, with and without literature citations: 10 scenarios (complete, "
                      "reordered, unused module, missing module after 0/1/2 consumed, duplicate, invalid vector, invalid module, same "
                      "object twice) x 3 consecutive calls, plus an exception injected into the j-th fragment extraction (j=0..2) and a "
                      "retry; deep snapshot (sequence, ids, features by denoted nucleotides, qualifier values and value types, "
